@@ -1534,6 +1534,11 @@ def _clear_unused_initializers(values: Sequence[ir.Value]) -> None:
         if value is None or not value.is_initializer():
             continue
 
+        if value.is_graph_input():
+            # An initializer that is also a graph input is the default value of that input:
+            # the input stays in the signature, so its default must stay as well.
+            continue
+
         if (not value.uses()) and (not value.is_graph_output()):
             assert value.is_initializer()
             assert value.graph is not None
